@@ -31,7 +31,8 @@ func init() {
 			c.run("C01-S5", "shared with C04-R4/R6: everything written to the connection is a protocol line with the negotiated newline, or framed/escaped payload whose announced length is its real length", func(c *Ctx) { c04R4(c); c04FrameLen(c) })
 			c.run("C01-S1", "shared with C02: digest compare and saved==size gates dominate success", func(c *Ctx) { c02Digest(c); c02SavedSize(c); c02OneStream(c) })
 			c.run("C01-S2", "shared with C07-R5: the names shown are the names written", c07R5)
-			c.run("C01-S3", "shared with C08-R1/R2: a resumed file is cut at the offset both ends proved equal", func(c *Ctx) { c08R1(c); c08R2(c) })
+			c.run("C01-S3", "shared with C08-R1/R2/R4: a resumed file is cut at the offset both ends proved equal, and the compression probe gives the sender's offset back", func(c *Ctx) { c08R1(c); c08R2(c); c08R4(c) })
+			c.run("C01-S6", "shared with C07-R2b: one local name per source path id (two sources with the same base name are not merged)", c07MapKey)
 		})
 }
 
